@@ -155,8 +155,8 @@ def derives_patternwise(t, param):
     return False
 
 
-FLOAT_DTYPES = {("extref", "float"), ("ext", "numpy.float64"), ("ext", "numpy.float32"), ("ext", "numpy.float16"), ("ext", "numpy.double"), ("ext", "numpy.single"),
-                ("const", "float"), ("const", "float64"), ("const", "float32"), ("const", "f8"), ("const", "f4"), ("const", "d"), ("const", "f")}
+NARROW_FLOAT_DTYPES = {("extref", "float"), ("ext", "numpy.float64"), ("ext", "numpy.float32"), ("ext", "numpy.float16"), ("ext", "numpy.double"), ("ext", "numpy.single"),
+                       ("const", "float"), ("const", "float64"), ("const", "float32"), ("const", "f8"), ("const", "f4"), ("const", "d"), ("const", "f")}
 
 
 def float_narrowings(t):
@@ -177,7 +177,7 @@ def float_narrowings(t):
             continue
         if isinstance(dt, tuple) and dt[0] == "extref" and dt[1] in ("numpy.float64", "numpy.float32", "numpy.float16", "numpy.double", "numpy.single"):
             dt = ("extref", "float")
-        if dt in FLOAT_DTYPES and not (isinstance(src, tuple) and src[0] in ("cmp", "boolop")):
+        if dt in NARROW_FLOAT_DTYPES and not (isinstance(src, tuple) and src[0] in ("cmp", "boolop")):
             out.append(x)
     return out
 
@@ -405,7 +405,7 @@ def zeros_of(t, shapes=(), like=(), allow_empty=False):
     is read) of one of the given shapes, in any spelling of the shape (tuple, list, keyword) and with no dtype or a float one"""
     if not (isinstance(t, tuple) and t and t[0] == "ext"):
         return False
-    kw = dict((k, v) for k, v in t[3] if k != "$draw")
+    kw = dict((k, (v[2] if isinstance(v, tuple) and len(v) == 3 and v[0] == "default" else v)) for k, v in t[3] if k != "$draw")      # a helper's keyword default is its value
     if not set(kw) <= {"dtype"} or kw.get("dtype", FLOAT_DTYPES[0]) not in FLOAT_DTYPES:
         return False
     names = ("numpy.zeros",) + (("numpy.empty",) if allow_empty else ())
